@@ -6,7 +6,7 @@
    hold for every layout of the same tree; that the lexer/parser model agrees with the generated
    ANTLR parser on every rendered layout is the correspondence part of the check. *)
 From Verif Require Import Base.Str Base.Outcome Model.Ast Model.Token Model.Parser Model.Listener
-  Spec.Sem Proofs.ListenerSem Proofs.ListenerFile.
+  Spec.Sem Proofs.ListenerSem Proofs.ListenerFile Proofs.ParserShape.
 
 (* 1. a non-leading operand (a rewrite or a parenthesised group, nested to any depth) appends exactly its
       denotation and leaves the pending operator, the restrictions and the rewrite stack as they were *)
@@ -28,6 +28,12 @@ Proof. exact walk_rdef_sem. Qed.
 Theorem C03_listener_is_sem : forall f, wf_file f -> distinct_decls f ->
   exists s, walk f = Ok s /\ ls_errs s = [] /\ model_of s = sem_file f.
 Proof. exact walk_is_sem. Qed.
+
+(* 4. whatever token stream the parser model accepts, its tree is grammatical (one operator kind per
+      parenthesis level, one operand after `but not`, direct assignment only in leading position), so 1-3 apply
+      to every accepted document *)
+Theorem C03_parser_sound : forall ts f, parse ts = Some f -> wf_file f.
+Proof. exact parse_wf. Qed.
 
 (* non-vacuity: a nested definition with redundant parentheses, `(a or (b and c)) but not d` *)
 Example C03_example :
